@@ -81,35 +81,38 @@ Proof.
   rewrite E. lra.
 Qed.
 
-(* ---------- Renyi entropy, alpha = 0:  the code returns log(len p); the documented value and the
-   limit of the general formula is log |supp p| (Hartley).  They differ as soon as a probability is 0. *)
-Definition renyi0_branch (p : list R) : R := ln (INR (length p)) / ln 2.
+(* ---------- Renyi entropy, alpha = 0: the code returns log(count_nonzero p) (repair 0e11ab5d3), which
+   is the documented Hartley entropy log |supp p| and the limit of the general formula. *)
+Fixpoint count_nonzero (p : list R) : nat :=
+  match p with [] => O | x :: l => if Req_EM_T x 0 then count_nonzero l else S (count_nonzero l) end.
+Definition renyi0_branch (p : list R) : R := ln (INR (count_nonzero p)) / ln 2.
 Definition support_size (p : list R) : nat := length (filter (fun x => if Req_EM_T x 0 then false else true) p).
 Definition hartley (p : list R) : R := ln (INR (support_size p)) / ln 2.
 
 Lemma ln2_pos : 0 < ln 2.
 Proof. rewrite <- ln_1. apply ln_increasing; lra. Qed.
 
-Theorem renyi_alpha0_branch_refuted :
-  exists p, rsum p = 1 /\ (forall x, In x p -> 0 <= x <= 1) /\ renyi0_branch p <> hartley p.
+Theorem renyi_alpha0_branch_ok p : renyi0_branch p = hartley p.
+Proof.
+  unfold renyi0_branch, hartley, support_size. do 3 f_equal.
+  induction p as [|x l IH]; cbn [count_nonzero filter length]; [reflexivity|].
+  destruct (Req_EM_T x 0); cbn [length]; now rewrite IH.
+Qed.
+
+(* HISTORICAL (pre-repair formula, not the current tree): the branch used to return log(len p), which
+   differs from the Hartley value as soon as a probability is 0 *)
+Definition renyi0_branch_prefix (p : list R) : R := ln (INR (length p)) / ln 2.
+Lemma historical_renyi_alpha0_prefix_differs :
+  exists p, rsum p = 1 /\ (forall x, In x p -> 0 <= x <= 1) /\ renyi0_branch_prefix p <> hartley p.
 Proof.
   exists [/2; /2; 0; 0]. split; [cbn; lra|]. split.
   - intros x H. cbn in H. destruct H as [<-|[<-|[<-|[<-|[]]]]]; lra.
-  - unfold renyi0_branch, hartley, support_size. cbn [length filter].
+  - unfold renyi0_branch_prefix, hartley, support_size. cbn [length filter].
     destruct (Req_EM_T (/2) 0) as [E|_]; [lra|]. destruct (Req_EM_T 0 0) as [_|N]; [|lra]. cbn [length].
     replace (INR 4) with (2 * 2) by (cbn; lra). replace (INR 2) with 2 by (cbn; lra).
     rewrite ln_mult by lra. pose proof ln2_pos as H. intros E.
     assert (E' : (ln 2 + ln 2) / ln 2 = 2) by (field; lra).
     assert (E'' : ln 2 / ln 2 = 1) by (field; lra). lra.
-Qed.
-
-(* where no probability vanishes the branch is the Hartley value (the shortcut is right there) *)
-Theorem renyi_alpha0_branch_full_support p : (forall x, In x p -> x <> 0) -> renyi0_branch p = hartley p.
-Proof.
-  intros H. unfold renyi0_branch, hartley, support_size. do 2 f_equal. f_equal.
-  induction p as [|x l IH]; cbn [filter length]; [reflexivity|].
-  destruct (Req_EM_T x 0) as [E|_]; [exfalso; apply (H x); [now left|exact E]|].
-  cbn [length]. f_equal. apply IH. intros y Hy. apply H. now right.
 Qed.
 
 (* ---------- Tsallis entropy S_a = (1 - sum p^a)/(a - 1).  Its limit a -> 1 is minus the derivative
